@@ -3,6 +3,8 @@
 package cl
 
 import (
+	"math"
+
 	"github.com/ohler55/ojg/sen"
 	"github.com/ohler55/slip"
 )
@@ -41,9 +43,45 @@ type Sxhash struct {
 // Call the function with the arguments provided.
 func (f *Sxhash) Call(s *slip.Scope, args slip.List, depth int) (result slip.Object) {
 	slip.CheckArgCount(s, depth, f, args, 1, 1)
-	var h uint64
-	for _, b := range sen.Bytes(slip.SimpleObject(args[0])) {
-		h += uint64(0xdf & b) // mask 0x20 to ignore ascii case, for others it doesn't matter
+
+	return slip.Fixnum(sxhash(args[0]) & 0x7fffffffffffffff)
+}
+
+// sxhash returns the same code for objects that are equal. Numbers are hashed
+// by value so the representation does not matter, sequences by their
+// elements, and everything else by the simplified form ignoring case.
+func sxhash(obj slip.Object) (h uint64) {
+	switch to := obj.(type) {
+	case slip.Real:
+		h = hashFloat(to.RealValue())
+	case slip.Complex:
+		if h = hashFloat(real(to)); imag(to) != 0.0 {
+			h = h*31 + hashFloat(imag(to))
+		}
+	case slip.List:
+		for _, v := range to {
+			h = h*31 + sxhash(v)
+		}
+	case slip.Tail:
+		h = sxhash(to.Value)
+	case slip.ArrayLike:
+		for _, v := range to.AsList() {
+			h = h*31 + sxhash(v)
+		}
+	default:
+		for _, b := range sen.Bytes(slip.SimpleObject(obj)) {
+			h += uint64(0xdf & b) // mask 0x20 to ignore ascii case, for others it doesn't matter
+		}
 	}
-	return slip.Fixnum(h & 0x7fffffffffffffff)
+	return
+}
+
+func hashFloat(f float64) uint64 {
+	// The least precise float is used since numbers are equal if they are
+	// the same after conversion to the less precise type.
+	f32 := float32(f)
+	if f32 == 0.0 { // -0.0 and 0.0 are equal
+		f32 = 0.0
+	}
+	return uint64(math.Float32bits(f32))
 }
